@@ -55,6 +55,9 @@ PRODUCTIONS = [
     ('S', 'pretty({N})'), ('S', 'pretty({LN})'), ('S', 'pretty({D})'), ('S', 'pretty({S})'), ('S', 'pretty({B})'), ('S', 'pretty({LS}, "-")'),
     ('S', 'pretty({D}, "; ")'), ('S', 'pretty({N} * 1000)'), ('S', 'pretty(123456 + {N})'), ('S', 'pretty(0 - 1234567)'), ('S', 'pretty({O})'),
     ('S', 'pretty(12345678, ",")'),
+    ('S', 'str([0.0000001, {N}])'), ('S', 'str({LN})'), ('S', 'str({D})'), ('S', '{S} + [{N}, {S}]'), ('S', '{S} + {D}'), ('S', 'str(items({D}))'),
+    ('S', 'str([1 / 3, 10 ** 28 * {N}, 0.00000001 * {N}])'), ('D', '⟦[{N}, 0.0000001]: 1⟧'), ('S', 'join([{LN}, [0.0000005]], "|")'),
+    ('S', 'pretty([{LN}, 0.0000002])'), ('S', 'pretty(⟦"k": [0.0000001, {N}]⟧)'), ('S', 'str([None, True, {S}, [{N}]])'), ('S', 'str(enumerate({LS}))'),
     ('A', 'index_of({LN}, {N})'), ('A', 'get({D}, {K})'), ('A', '{N} if {B} else {S}'), ('A', '{B} and {N}'), ('A', '{N} or {S}'),
     ('A', '{O} or {N}'), ('A', '{S} and {O}'),
     ('S', '{S} + {S}'), ('S', '{S} + {N}'), ('S', '{S} + {B}'), ('S', '{S} + {O}'), ('S', 'str({N})'), ('S', 'str({B})'), ('S', 'str({O})'),
@@ -122,7 +125,7 @@ def build_real(spec):
     api = snapshot.api()
     k = spec[0]
     if k == 'num':
-        return api.Decimal(spec[1]).scaleb(spec[2])
+        return api.Decimal(f'{spec[1]}E{spec[2]}')
     if k == 'str':
         return spec[1]
     if k == 'list':
@@ -133,7 +136,7 @@ def build_real(spec):
 def build_model(spec):
     k = spec[0]
     if k == 'num':
-        return M.Num.triple(False, spec[1], spec[2])
+        return M.plain(M.Num.triple(False, spec[1], spec[2]))
     if k == 'str':
         return spec[1]
     if k == 'list':
